@@ -236,9 +236,11 @@ def seq_case(draw, name):
   alts = sorted(ALT[name])
   ops = []
   for _ in range(draw(st.integers(1, 6))):
-    op = draw(st.sampled_from(['set', 'set', 'clone', 'pickle', 'fit']))
+    op = draw(st.sampled_from(['set', 'set', 'clone', 'pickle', 'pickle', 'fit', 'prep']))
     if op == 'set' and alts:
       ops.append(['set', draw(st.sampled_from(alts))])
+    elif op == 'prep':
+      ops.append(['prep', draw(st.integers(0, 2))])
     elif op != 'set':
       ops.append([op])
   first = draw(st.sampled_from(alts)) if alts else None
@@ -255,8 +257,11 @@ def check_seq(case, stats):
   name = case['est']
   desc = dict(DESC0, seed=case['dseed'])
   data = gen.Data(desc)
-  base = E.materialize(name, {}, data, 0)
+  pools = [np.random.RandomState(100 + j).randn(20, data.d) * (j + 1) for j in range(3)]
+  base = E.materialize(name, {}, data, 0, {'preprocessor': pools[0]})
   model = dict(base)
+  qidx = np.array([3, 1, 1, 19, 0])
+  qpairs = np.array([[0, 5], [7, 7], [19, 2]])
   if case['first']:
     model[case['first']] = ALT[name][case['first']]
   est = E.build(name, dict(model))
@@ -269,8 +274,21 @@ def check_seq(case, stats):
     elif op[0] == 'clone':
       est = call('C18/seq-clone/' + name, clone, est)
       fitted = False
+    elif op[0] == 'prep':
+      model['preprocessor'] = pools[op[1]]
+      call('C18/seq-set_params/' + name, est.set_params, preprocessor=pools[op[1]])
     elif op[0] == 'pickle':
+      before = None
+      if fitted:
+        before = [np.asarray(est.transform(qidx)), np.asarray(est.pair_distance(qpairs))]
       est = call('C18/seq-pickle/' + name, pickle.loads, pickle.dumps(est))
+      if before is not None:
+        after = [np.asarray(call('C18/seq-unpickled-transform/' + name, est.transform, qidx)),
+                 np.asarray(call('C18/seq-unpickled-pair_distance/' + name, est.pair_distance, qpairs))]
+        for x, z, what in zip(before, after, ('transform(indices)', 'pair_distance(indices)')):
+          if not bits_equal(x, z):
+            raise Violation('C18/seq-pickle-changes-index-outputs/' + name,
+                            'history %s: %s differs after the pickle round trip by %g' % (case['ops'], what, np.abs(x - z).max()))
     else:
       r = call('C18/seq-fit/' + name, est.fit, *E.fit_args(name, data), expect=exp)
       if isinstance(r, Exception):
